@@ -3470,3 +3470,88 @@ func rulePushPair(prog *Program, rep *Report, inScope func(fd *ast.FuncDecl) boo
 	}
 	_ = info
 }
+
+// ---------------------------------------------------------------- M-inplace
+
+// matchResliceInput: `ns := tv[:0]` followed by appends compacts the caller's array in place.
+// In the removal code the filter predicate is evaluated while the loop runs and may read the
+// very list being compacted (through `$`), and the original list stays visible to the caller
+// through other references: the copy has to be a fresh slice. Reported: a slice expression
+// with high bound 0 whose operand is a parameter or a type-switch binding (the input), not a
+// local buffer of the function.
+func matchResliceInput(files []*ast.File, info *types.Info) (sites []synSite, examined int) {
+	for _, f := range files {
+		for _, d := range f.Decls {
+			fd, ok := d.(*ast.FuncDecl)
+			if !ok || fd.Body == nil {
+				continue
+			}
+			inputs := map[types.Object]bool{}
+			if fd.Type.Params != nil {
+				for _, fl := range fd.Type.Params.List {
+					for _, n := range fl.Names {
+						inputs[info.Defs[n]] = true
+					}
+				}
+			}
+			ast.Inspect(fd.Body, func(n ast.Node) bool {
+				if ts, ok := n.(*ast.TypeSwitchStmt); ok {
+					for _, cl := range ts.Body.List {
+						if o := info.Implicits[cl]; o != nil {
+							inputs[o] = true
+						}
+					}
+				}
+				return true
+			})
+			ast.Inspect(fd.Body, func(n ast.Node) bool {
+				se, ok := n.(*ast.SliceExpr)
+				if !ok || se.High == nil {
+					return true
+				}
+				if tv, ok := info.Types[se.High]; !ok || tv.Value == nil || tv.Value.ExactString() != "0" {
+					return true
+				}
+				examined++
+				if o := useObj(info, se.X); o != nil && inputs[o] {
+					name := enclosingFuncName(f, se.Pos())
+					sites = append(sites, synSite{pos: se.Pos(), file: f, key: name + ":reslices-input:" + types.ExprString(se.X),
+						msg: fmt.Sprintf("%s takes %s, a zero-length view of its input, as the buffer it appends the kept elements to: the input array is overwritten in place while it is still being read", name, types.ExprString(se))})
+				}
+				return true
+			})
+		}
+	}
+	return
+}
+
+const fixtureResliceInput = `package fixture
+
+func remove(value any, keep func(any) bool) any {
+	switch tv := value.(type) {
+	case []any:
+		ns := tv[:0]
+		for _, v := range tv {
+			if keep(v) {
+				ns = append(ns, v)
+			}
+		}
+		return ns
+	}
+	return value
+}
+
+func fine(n int) []int {
+	cur := make([]int, 0, n)
+	next := make([]int, 0, n)
+	for i := 0; i < n; i++ {
+		cur, next = next, cur[:0]
+	}
+	return next
+}
+`
+
+func ruleResliceInput(prog *Program, rep *Report, rels ...string) {
+	rep.Rules = append(rep.Rules, "M-inplace: no function of package jp uses a zero-length reslice of its input (a parameter or a type-switch binding: `ns := tv[:0]`) as the buffer for the elements it keeps: removal builds a fresh slice and leaves the input array as it was")
+	runSynRule(prog, rep, "M-inplace", rels, matchResliceInput, fixtureResliceInput, 1, 1)
+}
